@@ -605,7 +605,7 @@ Qed.
 Lemma replace_rounds_S : forall k ms orig res,
   replace_rounds (S k) ms orig res =
   if snd (apply_all ms orig res false)
-  then replace_rounds k ms orig (fst (apply_all ms orig res false))
+  then replace_rounds k ms (fst (apply_all ms orig res false)) (fst (apply_all ms orig res false))
   else fst (apply_all ms orig res false).
 Proof.
   intros k ms orig res. cbn [replace_rounds].
@@ -785,6 +785,471 @@ Proof.
   - intros n v m [E|[]] [Em|[]]. inversion E; subst. cbn [fst]. exact Hv.
 Qed.
 Print Assumptions replace_all_single.
+
+(** * [replace_all] with CHAINS of object-like macros
+
+    Every round computes its match set on the text as it stands at the beginning of the round,
+    so a macro name brought in by a replacement is expanded in a later round.  For an acyclic
+    set of object-like macros (a rank strictly decreases from a macro to the macro names its
+    value mentions) of depth below the 64-round cap, [replace_all] is the full recursive token
+    substitution [tsubst (expand_tok 64 ms)]. *)
+
+(** the change flag: once set it stays set, and a round that starts on [orig] reports a change
+    as soon as one macro matches *)
+Lemma apply_all_snd_true : forall ms orig res,
+  snd (apply_all ms orig res true) = true.
+Proof.
+  induction ms as [|m r IH]; intros orig res; [reflexivity|].
+  rewrite apply_all_cons. destruct (macro_matches m orig); [|apply IH].
+  cbn [orb]. apply IH.
+Qed.
+
+Lemma apply_all_unchanged : forall ms orig,
+  snd (apply_all ms orig orig false) = false ->
+  forall m, In m ms -> macro_matches m orig = false.
+Proof.
+  induction ms as [|m0 r IH]; intros orig Hs m Hin; [contradiction|].
+  rewrite apply_all_cons in Hs.
+  destruct (macro_matches m0 orig) eqn:Em.
+  - exfalso. unfold macro_matches in Em. rewrite Em in Hs. cbn [orb] in Hs.
+    rewrite apply_all_snd_true in Hs. discriminate.
+  - destruct Hin as [<-|Hin]; [exact Em | exact (IH orig Hs m Hin)].
+Qed.
+
+Lemma tsubst_token : forall F s t, In t (tokens s) -> tsubst F t = F t.
+Proof.
+  intros F s t Ht. unfold tsubst. rewrite (token_tokens s t Ht). cbn [map].
+  rewrite concat_cons, concat_nil, app_nil_r_s. reflexivity.
+Qed.
+
+Lemma find_name_none : forall (ms : list (string * string)) t,
+  ~ In t (map fst ms) -> find (fun nv => String.eqb (fst nv) t) ms = None.
+Proof.
+  induction ms as [|[n v] ms IH]; intros t Hn; [reflexivity|].
+  cbn [find fst]. cbn [map fst In] in Hn.
+  destruct (String.eqb_spec n t) as [E|E]; [exfalso; auto|]. apply IH. auto.
+Qed.
+
+Lemma find_name_some : forall (ms : list (string * string)) n v,
+  NoDup (map fst ms) -> In (n, v) ms -> find (fun nv => String.eqb (fst nv) n) ms = Some (n, v).
+Proof.
+  induction ms as [|[n0 v0] ms IH]; intros n v Hnd Hin; [contradiction|].
+  cbn [map fst] in Hnd. inversion Hnd as [|x l Hnotin Hnd' Heq]; subst x l.
+  cbn [find fst]. destruct Hin as [E|Hin].
+  - inversion E; subst. rewrite String.eqb_refl. reflexivity.
+  - destruct (String.eqb_spec n0 n) as [E|E].
+    + subst n0. exfalso. apply Hnotin. change n with (fst (n, v)). apply in_map. exact Hin.
+    + apply IH; assumption.
+Qed.
+
+Lemma find_name_in : forall (ms : list (string * string)) t nv,
+  find (fun x => String.eqb (fst x) t) ms = Some nv -> In nv ms /\ fst nv = t.
+Proof.
+  intros ms t nv H. apply find_some in H as [Hin Heq]. apply String.eqb_eq in Heq. auto.
+Qed.
+
+Lemma expand_tok_S : forall f ms t,
+  expand_tok (S f) ms t =
+  match find (fun nv => String.eqb (fst nv) t) ms with
+  | Some nv => tsubst (expand_tok f ms) (snd nv)
+  | None => t
+  end.
+Proof. reflexivity. Qed.
+
+Lemma expand_tok_nonname : forall f ms t, ~ In t (map fst ms) -> expand_tok f ms t = t.
+Proof.
+  intros [|f] ms t Hn; [reflexivity|]. rewrite expand_tok_S, (find_name_none ms t Hn). reflexivity.
+Qed.
+
+Section Chain.
+  Variable ms : list (string * string).
+  Variable rank : string -> nat.
+  Hypothesis Hnd : NoDup (map fst ms).
+  Hypothesis Hw : names_wordy ms.
+  Hypothesis Hrank : forall n v t,
+    In (n, v) ms -> In t (tokens v) -> In t (map fst ms) -> rank t < rank n.
+
+  (** more fuel than the rank of the token changes nothing *)
+  Lemma expand_tok_fuel : forall f t, (In t (map fst ms) -> rank t < f) ->
+    forall g, f <= g -> expand_tok g ms t = expand_tok f ms t.
+  Proof.
+    induction f as [|f IH]; intros t Ht g Hg.
+    - assert (Hn : ~ In t (map fst ms)) by (intros H; specialize (Ht H); lia).
+      rewrite !(expand_tok_nonname _ _ _ Hn). reflexivity.
+    - destruct g as [|g]; [lia|]. rewrite !expand_tok_S.
+      destruct (find _ ms) as [[n v]|] eqn:E; [|reflexivity].
+      apply find_name_in in E as [Hin Hn]. cbn [fst] in Hn. subst n. cbn [snd].
+      apply tsubst_ext_in. intros t' Ht'. apply IH; [|lia].
+      intros Hname. pose proof (Hrank t v t' Hin Ht' Hname) as H1.
+      assert (H2 : rank t < S f) by (apply Ht; change t with (fst (t, v)); apply in_map; exact Hin).
+      lia.
+  Qed.
+
+  Variable b : nat.
+  Hypothesis Hb : forall n, In n (map fst ms) -> rank n < b.
+
+  Definition chain_E : string -> string := expand_tok b ms.
+
+  (** the defining equations of the full expansion *)
+  Lemma chain_E_name : forall n v, In (n, v) ms -> chain_E n = tsubst chain_E v.
+  Proof.
+    intros n v Hin. unfold chain_E.
+    assert (Hname : In n (map fst ms)) by (change n with (fst (n, v)); apply in_map; exact Hin).
+    pose proof (Hb n Hname) as Hlt.
+    destruct b as [|b']; [lia|].
+    rewrite expand_tok_S at 1. rewrite (find_name_some ms n v Hnd Hin). cbn [snd].
+    apply tsubst_ext_in. intros t Ht. symmetry. apply expand_tok_fuel; [|lia].
+    intros Htn. pose proof (Hrank n v t Hin Ht Htn). lia.
+  Qed.
+
+  Lemma chain_E_other : forall t, ~ In t (map fst ms) -> chain_E t = t.
+  Proof. intros t Hn. apply expand_tok_nonname. exact Hn. Qed.
+
+  Lemma nonword_not_name : forall a, is_word a = false -> ~ In (String a "") (map fst ms).
+  Proof.
+    intros a Ha Hin. apply in_map_iff in Hin as [[n v] [Hfst Hin]]. cbn [fst] in Hfst. subst n.
+    destruct (Hw _ _ Hin) as [_ Hall]. cbn [all_word] in Hall. rewrite Ha in Hall. discriminate.
+  Qed.
+
+  Lemma chain_E_keeps_nonword : keeps_nonword chain_E.
+  Proof. intros a Ha. apply chain_E_other. apply nonword_not_name. exact Ha. Qed.
+
+  (** applying one macro of the set does not change the full expansion of the text *)
+  Lemma chain_E_step : forall n v x, In (n, v) ms ->
+    tsubst chain_E (fst (replace_word n v x)) = tsubst chain_E x.
+  Proof.
+    intros n v x Hin. pose proof (Hw n v Hin) as Hn.
+    rewrite (replace_word_token_exact _ _ _ Hn), subst_tokens_tsubst.
+    rewrite (tsubst_tsubst _ _ _ (sub1_keeps_nonword n v Hn)).
+    apply tsubst_ext_in. intros t Ht. unfold sub1.
+    destruct (String.eqb_spec t n) as [E|E].
+    - subst t. symmetry. apply chain_E_name. exact Hin.
+    - apply (tsubst_token chain_E x t Ht).
+  Qed.
+
+  Lemma apply_all_chain_E : forall ms2, incl ms2 ms -> forall orig res c,
+    tsubst chain_E (fst (apply_all (map mk_obj ms2) orig res c)) = tsubst chain_E res.
+  Proof.
+    induction ms2 as [|[n v] ms2 IH]; intros Hincl orig res c; [reflexivity|].
+    assert (Hincl' : incl ms2 ms) by (intros x Hx; apply Hincl; right; exact Hx).
+    cbn [map]. rewrite apply_all_cons.
+    destruct (macro_matches (mk_obj (n, v)) orig); rewrite (IH Hincl'); [|reflexivity].
+    rewrite apply_macro_obj. cbn [fst snd]. apply chain_E_step. apply Hincl. left. reflexivity.
+  Qed.
+
+  (** [below k s]: every macro name that is a token of [s] has rank below [k] *)
+  Definition below (k : nat) (s : string) : Prop :=
+    forall t, In t (tokens s) -> In t (map fst ms) -> rank t < k.
+
+  Lemma below_0_closed : forall s, below 0 s -> tsubst chain_E s = s.
+  Proof.
+    intros s H0. rewrite <- (tsubst_id s) at 2. apply tsubst_ext_in. intros t Ht.
+    apply chain_E_other. intros Hname. specialize (H0 t Ht Hname). lia.
+  Qed.
+
+  (** one round lowers the largest rank present: a macro of the match set is removed for good
+      (what its value brings in has lower rank), the others were absent at the start *)
+  Lemma apply_all_below : forall ms2, incl ms2 ms -> forall orig res c k,
+    below (S k) orig ->
+    (forall t, In t (tokens res) -> In t (map fst ms) ->
+               rank t < k \/ (In t (tokens orig) /\ In t (map fst ms2))) ->
+    below k (fst (apply_all (map mk_obj ms2) orig res c)).
+  Proof.
+    induction ms2 as [|[n v] ms2 IH]; intros Hincl orig res c k Horig Hinv.
+    - intros t Ht Hname. destruct (Hinv t Ht Hname) as [H|[_ []]]. exact H.
+    - assert (Hincl' : incl ms2 ms) by (intros x Hx; apply Hincl; right; exact Hx).
+      assert (Hin : In (n, v) ms) by (apply Hincl; left; reflexivity).
+      pose proof (Hw n v Hin) as Hn.
+      cbn [map]. rewrite apply_all_cons, (macro_matches_obj (n, v) orig Hn). cbn [fst].
+      destruct (existsb (String.eqb n) (tokens orig)) eqn:Em.
+      + apply existsb_exists in Em as [n' [Hn' En']]. apply String.eqb_eq in En'. subst n'.
+        assert (Hrn : rank n < S k)
+          by (apply Horig; [exact Hn' | change n with (fst (n, v)); apply in_map; exact Hin]).
+        apply (IH Hincl'); [exact Horig|].
+        rewrite apply_macro_obj. cbn [fst snd].
+        rewrite (replace_word_token_exact _ _ _ Hn), subst_tokens_tsubst.
+        rewrite (tokens_tsubst _ res (sub1_keeps_nonword n v Hn)).
+        intros t Ht Hname. apply in_flat_map in Ht as [t0 [Ht0 Ht]]. unfold sub1 in Ht.
+        destruct (String.eqb_spec t0 n) as [E|E].
+        * left. pose proof (Hrank n v t Hin Ht Hname). lia.
+        * rewrite (token_tokens res t0 Ht0) in Ht. destruct Ht as [<-|[]].
+          destruct (Hinv t0 Ht0 Hname) as [H|[H1 H2]]; [left; exact H|].
+          cbn [map fst In] in H2. destruct H2 as [H2|H2]; [congruence|]. right. auto.
+      + apply (IH Hincl'); [exact Horig|].
+        intros t Ht Hname. destruct (Hinv t Ht Hname) as [H|[H1 H2]]; [left; exact H|].
+        cbn [map fst In] in H2. destruct H2 as [H2|H2]; [|right; auto].
+        subst t. exfalso.
+        assert (Ex : existsb (String.eqb n) (tokens orig) = true)
+          by (apply existsb_exists; exists n; split; [exact H1 | apply String.eqb_refl]).
+        congruence.
+  Qed.
+
+  Lemma round_below : forall s k, below (S k) s ->
+    below k (fst (apply_all (map mk_obj ms) s s false)).
+  Proof.
+    intros s k Hs. apply apply_all_below; [apply incl_refl | exact Hs |].
+    intros t Ht Hname. right. auto.
+  Qed.
+
+  (** a round that reports no change started on a text without macro names *)
+  Lemma round_unchanged : forall s, snd (apply_all (map mk_obj ms) s s false) = false ->
+    fst (apply_all (map mk_obj ms) s s false) = s /\ below 0 s.
+  Proof.
+    intros s Hs. pose proof (apply_all_unchanged _ _ Hs) as Hno.
+    assert (Hfree : forall nv, In nv ms -> existsb (String.eqb (fst nv)) (tokens s) = false).
+    { intros [n v] Hin. rewrite <- (macro_matches_obj (n, v) s (Hw n v Hin)).
+      apply Hno. apply in_map. exact Hin. }
+    split.
+    - rewrite (apply_all_stable ms s s false Hw Hfree). reflexivity.
+    - intros t Ht Hname. exfalso. apply in_map_iff in Hname as [nv [Hfst Hin]].
+      specialize (Hfree nv Hin). rewrite Hfst in Hfree.
+      assert (Ex : existsb (String.eqb t) (tokens s) = true)
+        by (apply existsb_exists; exists t; split; [exact Ht | apply String.eqb_refl]).
+      congruence.
+  Qed.
+
+  (** [k] rounds complete the expansion of a text whose macro names have rank below [k] *)
+  Lemma replace_rounds_chain : forall k s, below k s ->
+    replace_rounds k (map mk_obj ms) s s = tsubst chain_E s.
+  Proof.
+    induction k as [|k IH]; intros s Hs.
+    - cbn [replace_rounds]. symmetry. apply below_0_closed. exact Hs.
+    - rewrite replace_rounds_S.
+      destruct (snd (apply_all (map mk_obj ms) s s false)) eqn:Ec.
+      + rewrite (IH _ (round_below s k Hs)). apply apply_all_chain_E. apply incl_refl.
+      + destruct (round_unchanged s Ec) as [E H0]. rewrite E. symmetry.
+        apply below_0_closed. exact H0.
+  Qed.
+
+  (** the full expansion of a token contains no macro name *)
+  Lemma expand_tok_closed : forall f t, tokens t = [t] -> (In t (map fst ms) -> rank t < f) ->
+    forall t', In t' (tokens (expand_tok f ms t)) -> ~ In t' (map fst ms).
+  Proof.
+    induction f as [|f IH]; intros t Htok Ht t' Ht'.
+    - cbn [expand_tok] in Ht'. rewrite Htok in Ht'. destruct Ht' as [<-|[]].
+      intros H. specialize (Ht H). lia.
+    - rewrite expand_tok_S in Ht'. destruct (find _ ms) as [[n v]|] eqn:E.
+      + apply find_name_in in E as [Hin Hn]. cbn [fst] in Hn. subst n. cbn [snd] in Ht'.
+        assert (Hk : keeps_nonword (expand_tok f ms))
+          by (intros a Ha; apply expand_tok_nonname, nonword_not_name; exact Ha).
+        rewrite (tokens_tsubst _ v Hk) in Ht'. apply in_flat_map in Ht' as [t0 [Ht0 Ht']].
+        apply (IH t0 (token_tokens v t0 Ht0)); [|exact Ht'].
+        intros Hname. pose proof (Hrank t v t0 Hin Ht0 Hname) as H1.
+        assert (H2 : rank t < S f) by (apply Ht; change t with (fst (t, v)); apply in_map; exact Hin).
+        lia.
+      + rewrite Htok in Ht'. destruct Ht' as [<-|[]].
+        intros H. apply in_map_iff in H as [nv [Hfst Hin]].
+        pose proof (find_none _ _ E nv Hin) as Hf. cbn beta in Hf.
+        rewrite Hfst, String.eqb_refl in Hf. discriminate.
+  Qed.
+
+  Lemma chain_E_closed : forall s t, In t (tokens (tsubst chain_E s)) -> ~ In t (map fst ms).
+  Proof.
+    intros s t Ht. rewrite (tokens_tsubst _ s chain_E_keeps_nonword) in Ht.
+    apply in_flat_map in Ht as [t0 [Ht0 Ht]].
+    apply (expand_tok_closed b t0 (token_tokens s t0 Ht0) (Hb t0) t Ht).
+  Qed.
+End Chain.
+
+(** T6c: an acyclic set of object-like macros of depth below the round cap is expanded
+    completely, whatever the order of the definitions *)
+Theorem replace_all_chain : forall (ms : list (string * string)) (rank : string -> nat) s,
+  NoDup (map fst ms) -> (forall n v, In (n, v) ms -> wordy n) ->
+  (forall n v t, In (n, v) ms -> In t (tokens v) -> In t (map fst ms) -> rank t < rank n) ->
+  (forall n, In n (map fst ms) -> rank n < 64) ->
+  replace_all (map (fun nv => (fst nv, MObj (snd nv))) ms) s = tsubst (expand_tok 64 ms) s.
+Proof.
+  intros ms rank s Hnd Hw Hrank Hb. unfold replace_all.
+  apply (replace_rounds_chain ms rank Hnd Hw Hrank 64 Hb 64 s).
+  intros t _ Hname. apply Hb. exact Hname.
+Qed.
+Print Assumptions replace_all_chain.
+
+(** what [expand_tok 64 ms] is: a macro name expands to its value with every token expanded in
+    turn, any other token to itself ... *)
+Theorem expand_tok_equations : forall (ms : list (string * string)) (rank : string -> nat),
+  NoDup (map fst ms) -> (forall n v, In (n, v) ms -> wordy n) ->
+  (forall n v t, In (n, v) ms -> In t (tokens v) -> In t (map fst ms) -> rank t < rank n) ->
+  (forall n, In n (map fst ms) -> rank n < 64) ->
+  (forall n v, In (n, v) ms -> expand_tok 64 ms n = tsubst (expand_tok 64 ms) v) /\
+  (forall t, ~ In t (map fst ms) -> expand_tok 64 ms t = t).
+Proof.
+  intros ms rank Hnd Hw Hrank Hb. split.
+  - exact (chain_E_name ms rank Hnd Hrank 64 Hb).
+  - intros t Ht. apply expand_tok_nonname. exact Ht.
+Qed.
+Print Assumptions expand_tok_equations.
+
+(** ... and no macro name is left as a token of the result *)
+Theorem replace_all_chain_closed : forall (ms : list (string * string)) (rank : string -> nat) s t,
+  NoDup (map fst ms) -> (forall n v, In (n, v) ms -> wordy n) ->
+  (forall n v t, In (n, v) ms -> In t (tokens v) -> In t (map fst ms) -> rank t < rank n) ->
+  (forall n, In n (map fst ms) -> rank n < 64) ->
+  In t (tokens (replace_all (map (fun nv => (fst nv, MObj (snd nv))) ms) s)) ->
+  ~ In t (map fst ms).
+Proof.
+  intros ms rank s t Hnd Hw Hrank Hb Ht.
+  rewrite (replace_all_chain ms rank s Hnd Hw Hrank Hb) in Ht.
+  exact (chain_E_closed ms rank Hw Hrank 64 Hb s t Ht).
+Qed.
+Print Assumptions replace_all_chain_closed.
+
+(** the hypotheses in decidable form *)
+Lemma nodup_b_NoDup : forall l, nodup_b l = true -> NoDup l.
+Proof.
+  induction l as [|x l IH]; intros H; [constructor|].
+  cbn [nodup_b] in H. apply andb_true_iff in H as [Hx Hl]. apply negb_true_iff in Hx.
+  constructor; [|exact (IH Hl)].
+  intros Hin. assert (Ex : existsb (String.eqb x) l = true)
+    by (apply existsb_exists; exists x; split; [exact Hin | apply String.eqb_refl]).
+  congruence.
+Qed.
+
+Lemma wordy_b_wordy : forall n, wordy_b n = true -> wordy n.
+Proof.
+  intros n H. unfold wordy_b in H. apply andb_true_iff in H as [Hne Hall].
+  split; [|exact Hall]. intros E. subst n. discriminate.
+Qed.
+
+Theorem replace_all_chain_b : forall (ms : list (string * string)) (rank : string -> nat) s,
+  chain_ok_b rank ms = true ->
+  replace_all (map (fun nv => (fst nv, MObj (snd nv))) ms) s = tsubst (expand_tok 64 ms) s.
+Proof.
+  intros ms rank s Hok. unfold chain_ok_b in Hok. apply andb_true_iff in Hok as [Hnd Hall].
+  rewrite forallb_forall in Hall.
+  assert (Hone : forall n v, In (n, v) ms ->
+            wordy n /\ rank n < 64 /\
+            forall t, In t (tokens v) -> In t (map fst ms) -> rank t < rank n).
+  { intros n v Hin. specialize (Hall (n, v) Hin). cbn [fst snd] in Hall.
+    apply andb_true_iff in Hall as [Hall Htoks]. apply andb_true_iff in Hall as [Hwb Hlt].
+    split; [exact (wordy_b_wordy n Hwb)|]. split; [apply Nat.ltb_lt; exact Hlt|].
+    intros t Ht Hname. rewrite forallb_forall in Htoks. specialize (Htoks t Ht).
+    apply orb_true_iff in Htoks as [Hno|Hr]; [|apply Nat.ltb_lt; exact Hr].
+    exfalso. apply negb_true_iff in Hno.
+    assert (Ex : existsb (String.eqb t) (map fst ms) = true)
+      by (apply existsb_exists; exists t; split; [exact Hname | apply String.eqb_refl]).
+    congruence. }
+  apply (replace_all_chain ms rank s (nodup_b_NoDup _ Hnd)).
+  - intros n v Hin. apply (Hone n v Hin).
+  - intros n v t Hin. apply (Hone n v Hin).
+  - intros n Hname. apply in_map_iff in Hname as [[n' v] [Hfst Hin]]. cbn [fst] in Hfst. subst n'.
+    apply (Hone n v Hin).
+Qed.
+Print Assumptions replace_all_chain_b.
+
+(** the hypotheses are satisfiable: A -> B C, B -> 1, C -> 2 (A has rank 1, the others rank 0) *)
+Definition chain_example : list (string * string) := [("A", "B C"); ("B", "1"); ("C", "2")].
+Definition chain_example_rank (t : string) : nat := if String.eqb t "A" then 1 else 0.
+
+Example chain_example_ok : chain_ok_b chain_example_rank chain_example = true.
+Proof. vm_compute. reflexivity. Qed.
+
+Example chain_example_expansion :
+  map (expand_tok 64 chain_example) ["A"; "B"; "C"; "D"; "+"] = ["1 2"; "1"; "2"; "D"; "+"].
+Proof. vm_compute. reflexivity. Qed.
+
+Example chain_example_all_texts : forall s,
+  replace_all [("A", MObj "B C"); ("B", MObj "1"); ("C", MObj "2")] s
+  = tsubst (expand_tok 64 chain_example) s.
+Proof. intros s. exact (replace_all_chain_b chain_example chain_example_rank s chain_example_ok). Qed.
+
+Example chain_example_run :
+  replace_all [("A", MObj "B C"); ("B", MObj "1"); ("C", MObj "2")] "A+B;C A" = "1 2+1;2 1 2"
+  /\ tsubst (expand_tok 64 chain_example) "A+B;C A" = "1 2+1;2 1 2".
+Proof. split; vm_compute; reflexivity. Qed.
+
+(** two instances that need no rank function: the definitions are listed so that every value
+    mentions only macros defined EARLIER (the order of -D options: -D A=1 -D B=A), or only
+    macros defined LATER (the order of #define lines, whose bodies are expanded at definition
+    time with the macros defined before); at most 64 macros *)
+Lemma index_of_lt : forall t l, In t l -> index_of t l < List.length l.
+Proof.
+  intros t l. induction l as [|x l IH]; intros Hin; [contradiction|].
+  cbn [index_of List.length]. destruct (String.eqb_spec x t) as [E|E]; [lia|].
+  destruct Hin as [Hin|Hin]; [congruence|]. specialize (IH Hin). lia.
+Qed.
+
+Lemma index_of_app_in : forall t l1 l2, In t l1 -> index_of t (l1 ++ l2) = index_of t l1.
+Proof.
+  intros t l1 l2. induction l1 as [|x l1 IH]; intros Hin; [contradiction|].
+  cbn [app index_of]. destruct (String.eqb_spec x t) as [E|E]; [reflexivity|].
+  destruct Hin as [Hin|Hin]; [congruence|]. rewrite (IH Hin). reflexivity.
+Qed.
+
+Lemma index_of_app_notin : forall t l1 l2, ~ In t l1 ->
+  index_of t (l1 ++ l2) = List.length l1 + index_of t l2.
+Proof.
+  intros t l1 l2. induction l1 as [|x l1 IH]; intros Hn; [reflexivity|].
+  cbn [app index_of List.length]. cbn [In] in Hn.
+  destruct (String.eqb_spec x t) as [E|E]; [exfalso; auto|].
+  rewrite IH; [reflexivity | auto].
+Qed.
+
+Lemma index_of_head : forall t l, index_of t (t :: l) = 0.
+Proof. intros t l. cbn [index_of]. rewrite String.eqb_refl. reflexivity. Qed.
+
+Lemma nodup_app_disjoint : forall (l1 l2 : list string) t,
+  NoDup (l1 ++ l2) -> In t l1 -> ~ In t l2.
+Proof.
+  induction l1 as [|x l1 IH]; intros l2 t Hnd Hin; [contradiction|].
+  cbn [app] in Hnd. inversion Hnd as [|y l Hnotin Hnd' Heq]; subst y l.
+  destruct Hin as [<-|Hin].
+  - intros H2. apply Hnotin. apply in_or_app. right. exact H2.
+  - apply IH; assumption.
+Qed.
+
+Lemma names_split : forall (ms1 ms2 : list (string * string)) n v,
+  map fst (ms1 ++ (n, v) :: ms2) = (map fst ms1 ++ n :: map fst ms2)%list.
+Proof. intros ms1 ms2 n v. rewrite map_app. reflexivity. Qed.
+
+Theorem replace_all_chain_earlier : forall (ms : list (string * string)) s,
+  NoDup (map fst ms) -> (forall n v, In (n, v) ms -> wordy n) ->
+  (forall ms1 n v ms2 t, ms = (ms1 ++ (n, v) :: ms2)%list ->
+     In t (tokens v) -> In t (map fst ms) -> In t (map fst ms1)) ->
+  List.length ms <= 64 ->
+  replace_all (map (fun nv => (fst nv, MObj (snd nv))) ms) s = tsubst (expand_tok 64 ms) s.
+Proof.
+  intros ms s Hnd Hw Hearlier Hlen.
+  apply (replace_all_chain ms (fun t => index_of t (map fst ms)) s Hnd Hw).
+  - intros n v t Hin Ht Hname.
+    destruct (in_split _ _ Hin) as (ms1 & ms2 & Hms).
+    pose proof (Hearlier ms1 n v ms2 t Hms Ht Hname) as Ht1.
+    rewrite Hms, names_split in *.
+    assert (Hn1 : ~ In n (map fst ms1)).
+    { intros H. apply (NoDup_remove_2 _ _ _ Hnd). apply in_or_app. left. exact H. }
+    rewrite (index_of_app_in t _ _ Ht1), (index_of_app_notin n _ _ Hn1), index_of_head.
+    pose proof (index_of_lt t _ Ht1). lia.
+  - intros n Hname. pose proof (index_of_lt n _ Hname) as H. rewrite map_length in H. lia.
+Qed.
+Print Assumptions replace_all_chain_earlier.
+
+Theorem replace_all_chain_later : forall (ms : list (string * string)) s,
+  NoDup (map fst ms) -> (forall n v, In (n, v) ms -> wordy n) ->
+  (forall ms1 n v ms2 t, ms = (ms1 ++ (n, v) :: ms2)%list ->
+     In t (tokens v) -> In t (map fst ms) -> In t (map fst ms2)) ->
+  List.length ms <= 64 ->
+  replace_all (map (fun nv => (fst nv, MObj (snd nv))) ms) s = tsubst (expand_tok 64 ms) s.
+Proof.
+  intros ms s Hnd Hw Hlater Hlen.
+  apply (replace_all_chain ms (fun t => List.length ms - 1 - index_of t (map fst ms)) s Hnd Hw).
+  - intros n v t Hin Ht Hname.
+    destruct (in_split _ _ Hin) as (ms1 & ms2 & Hms).
+    pose proof (Hlater ms1 n v ms2 t Hms Ht Hname) as Ht2.
+    pose proof (index_of_lt t _ Hname) as Hlt. rewrite map_length in Hlt.
+    rewrite Hms in Hnd, Hname, Hlt |- *. rewrite names_split in *.
+    assert (Hn1 : ~ In n (map fst ms1)).
+    { intros H. apply (NoDup_remove_2 _ _ _ Hnd). apply in_or_app. left. exact H. }
+    assert (Ht1 : ~ In t (map fst ms1)).
+    { intros H. apply (nodup_app_disjoint _ _ t Hnd H). right. exact Ht2. }
+    assert (Etn : n <> t).
+    { intros E. subst t. apply (NoDup_remove_2 _ _ _ Hnd). apply in_or_app. right. exact Ht2. }
+    rewrite (index_of_app_notin n _ _ Hn1), index_of_head in *.
+    rewrite (index_of_app_notin t _ _ Ht1) in *.
+    cbn [index_of] in *. apply String.eqb_neq in Etn. rewrite Etn in *.
+    lia.
+  - intros n Hname. lia.
+Qed.
+Print Assumptions replace_all_chain_later.
 
 (** * Argument capture of function-like macros *)
 
@@ -1125,18 +1590,21 @@ Example replace_all_self_reference :
   replace_all [("A", MObj "A+1")] "A" <> subst_tokens "A" "A+1" "A".
 Proof. split; [vm_compute; reflexivity | vm_compute; discriminate]. Qed.
 
-(** a value that mentions ANOTHER macro: the set of macros applied in every round is computed on
-    the original text, so the result depends on whether the other name occurs there *)
+(** a value that mentions ANOTHER macro is outside T5/T6 (the result is not ONE simultaneous
+    substitution), but the match set of every round is computed on the text at the beginning of
+    that round, so the name brought in is expanded in a later round ([replace_all_chain]) *)
 Example replace_all_dependent_values :
-  replace_all [("A", MObj "B"); ("B", MObj "C")] "A" = "B" /\
-  replace_all [("A", MObj "B"); ("B", MObj "C")] "A B" = "C C".
-Proof. split; vm_compute; reflexivity. Qed.
+  replace_all [("A", MObj "B"); ("B", MObj "C")] "A" = "C" /\
+  replace_all [("A", MObj "B"); ("B", MObj "C")] "A B" = "C C" /\
+  tsubst (subst_many [("A", "B"); ("B", "C")]) "A B" = "B C".
+Proof. repeat split; vm_compute; reflexivity. Qed.
 
 (** the same through the pipeline: a macro defined AFTER the one that mentions it (bodies are
-    expanded at definition time only with the macros defined before) *)
-Example later_macro_rescan_depends_on_line :
+    expanded at definition time only with the macros defined before) is expanded when the line
+    is rescanned, whether or not its name occurs in the line *)
+Example later_macro_rescan :
   cpp_output (run_cpp [] "m.c" [] ["#define A B" ++ nl; "#define B 7" ++ nl; "A" ++ nl])
-    = Some ("B" ++ nl) /\
+    = Some ("7" ++ nl) /\
   cpp_output (run_cpp [] "m.c" [] ["#define A B" ++ nl; "#define B 7" ++ nl; "A B" ++ nl])
     = Some ("7 7" ++ nl).
 Proof. split; vm_compute; reflexivity. Qed.
